@@ -1,28 +1,26 @@
 CONSTANTS
-  NP = 1
-  NA = 1
+  Variant = "layout"
   PNames <- MC_PNames
   ANames <- MC_ANames
   PRates <- MC_PRates
   ARates <- MC_ARates
-  MaxFrames = 1
-  MaxPts = 1
-  MaxCh = 1
+  MaxFrames = 0
+  MaxPts = 0
+  MaxCh = 0
   FrameKinds <- MC_FrameKinds
   ColKinds <- MC_ColKinds
   Tags <- MC_Tags
-  IdxSlack = 1
+  IdxSlack = 0
   UserParams <- MC_UserParams
   LockNames <- MC_LockNames
   CallerIds <- MC_CallerIds
   Files <- MC_Files
   WithReload = TRUE
   Lookups = FALSE
-  Phased = TRUE
+  Phased = FALSE
 INIT Init
 NEXT Next
 VIEW View
-INVARIANT MandInv
 INVARIANT IOInv
 PROPERTY RefusedUnchanged
 CHECK_DEADLOCK FALSE
